@@ -21,17 +21,18 @@ func CompileToGetCodeSet(ctx *RuntimeContext, typeptr uintptr) (*OpcodeSet, erro
 	}
 	index := (typeptr - typeAddr.BaseTypeAddr) >> typeAddr.AddrShift
 	setsMu.RLock()
-	if codeSet := cachedOpcodeSets[index]; codeSet != nil {
+	codeSet := cachedOpcodeSets[index]
+	setsMu.RUnlock()
+	if codeSet != nil {
+		// filtering may encode the query ( FieldQuery.Hash ) and come back here:
+		// the lock must not be held ( a waiting writer blocks recursive read locks ).
 		filtered, err := getFilteredCodeSetIfNeeded(ctx, codeSet)
 		if err != nil {
-			setsMu.RUnlock()
 			return nil, err
 		}
-		setsMu.RUnlock()
 		VerifCodeSet(typeptr, filtered)
 		return filtered, nil
 	}
-	setsMu.RUnlock()
 
 	codeSet, err := newCompiler().compile(typeptr)
 	if err != nil {
